@@ -1,4 +1,53 @@
+//! C16 — async readers and writers behave exactly like their synchronous counterparts.
+
+mod bgzf_level;
+
+use bgzf_level::{ROp::*, WOp, make_case, make_wscript};
+use vmc::{Config, oracle::bgzf::Payload};
+use vrt::{CostModel, poll::PollMode};
+
 fn main() {
-    println!("MACHINERY-ERROR property=C16 check not built yet");
-    std::process::exit(2);
+    vmc::run("C16", "model_checking", |ctx| {
+        ctx.rule("every poll schedule (partial transfer / Pending at every poll of the underlying source or sink) and every blocking-task completion order within the deviation bound x worker counts x scripts; the synchronous reader/writer run on the same input is the specification; distinct = distinct (schedule, delivery, observation) logs");
+        ctx.assume("tokio-util FramedRead/FramedWrite and futures TryBuffered/Buffer are executed, not explored internally");
+        ctx.assume("spawn_blocking is modelled as a controlled thread whose completion wakes the JoinHandle's waker atomically");
+
+        // ---- BGZF level ----
+        let mut cases = Vec::new();
+        cases.push(make_case(&[3, 5, 2], true, vec![ReadToEnd]));
+        cases.push(make_case(&[3, 0, 4], true, vec![ReadToEnd]));
+        cases.push(make_case(&[4, 2], false, vec![ReadToEnd]));
+        cases.push(make_case(&[], true, vec![ReadToEnd]));
+        cases.push(make_case(&[3, 5, 2], true, vec![ReadExact(2), ReadExact(4), ReadExact(4), Read(5)]));
+        cases.push(make_case(&[3, 5, 2], true, vec![FillConsume(1), FillConsume(100), ReadExact(3), ReadToEnd]));
+        cases.push(make_case(&[3, 5, 2], true, vec![ReadExact(2), Seek(1, 2), ReadToEnd]));
+        cases.push(make_case(&[3, 5, 2], true, vec![ReadToEnd, Seek(0, 1), ReadExact(1), Seek(2, 0), ReadToEnd]));
+        cases.push(make_case(&[3, 0, 4], true, vec![ReadExact(1), Seek(1, 0), ReadExact(2), ReadToEnd]));
+        let workers = [2usize, 1, 3];
+        let choose = [PollMode::Choose];
+        let uniform = [PollMode::OneByte, PollMode::PendingEvery, PollMode::Irregular, PollMode::Ready];
+        let rb = ctx.by_tier(3, 4);
+        ctx.harness(Config::new("bgzf_reader", rb), |ch| {
+            bgzf_level::reader_body(ch, &cases, &workers, &choose, CostModel::Delay)
+        });
+        ctx.harness(Config::new("bgzf_reader_uniform", ctx.by_tier(1, 2)), |ch| {
+            bgzf_level::reader_body(ch, &cases, &workers, &uniform, CostModel::Delay)
+        });
+
+        use WOp::*;
+        let scripts = vec![
+            make_wscript("3-flushes", vec![W(5), F, W(5), F, W(1)], Payload::Text),
+            make_wscript("staging-full", vec![W(65496), W(5)], Payload::Zeros),
+            make_wscript("one-block", vec![W(5)], Payload::Text),
+            make_wscript("empty", vec![], Payload::Text),
+            make_wscript("flush-only", vec![F], Payload::Text),
+        ];
+        let wb = ctx.by_tier(3, 4);
+        ctx.harness(Config::new("bgzf_writer", wb), |ch| {
+            bgzf_level::writer_body(ch, &scripts, &workers, &choose, CostModel::Preempt)
+        });
+        ctx.harness(Config::new("bgzf_writer_uniform", ctx.by_tier(1, 2)), |ch| {
+            bgzf_level::writer_body(ch, &scripts, &workers, &uniform, CostModel::Preempt)
+        });
+    });
 }
